@@ -19,6 +19,8 @@ type Ctx struct {
 	W      *Worker
 
 	timeouts int
+	Shards   int // the thorough tier is split over this many processes; volumes are divided among them
+	Shard    int
 }
 
 // Impl runs one implementation operation in the sandboxed worker.
@@ -48,6 +50,21 @@ func (c *Ctx) N(quick, thorough int) int {
 	if c.Quick() {
 		return quick
 	}
+	if c.Shards > 1 && thorough > quick {
+		// a count of cases: each shard takes its part (never less than the quick tier's)
+		if t := (thorough + c.Shards - 1) / c.Shards; t > quick {
+			return t
+		}
+		return quick
+	}
+	return thorough
+}
+
+// Bound is for size bounds (not counts): the tier's value, whatever the number of shards.
+func (c *Ctx) Bound(quick, thorough int) int {
+	if c.Quick() {
+		return quick
+	}
 	return thorough
 }
 
@@ -73,6 +90,8 @@ func main() {
 		out := fs.String("out", "", "report path")
 		replay := fs.String("replay", "", "replay file")
 		work := fs.String("work", "", "scratch directory")
+		shards := fs.Int("shards", 1, "number of parallel shards of this run")
+		shard := fs.Int("shard", 0, "index of this shard")
 		fs.Parse(os.Args[2:])
 		ck, ok := checkers[*prop]
 		if !ok {
@@ -82,7 +101,7 @@ func main() {
 		if *work != "" {
 			os.Setenv("VERIF_KEYDIR", *work+"/keys")
 		}
-		c := &Ctx{Tier: *tier, Seed: *seed, Rng: rand.New(rand.NewSource(*seed)), Replay: *replay, Work: *work}
+		c := &Ctx{Tier: *tier, Seed: *seed, Rng: rand.New(rand.NewSource(*seed + int64(*shard)*1000003)), Replay: *replay, Work: *work, Shards: *shards, Shard: *shard}
 		drv, err := StartDriver(*driver, func(kind string, args []string) string { return answerOracle(c, kind, args) })
 		if err != nil {
 			fmt.Fprintln(os.Stderr, "driver:", err)
